@@ -15,7 +15,9 @@ import (
 
 // rsync/flist.c:flist_sort_and_clean
 func sortFileList(fileList []*File) {
-	sort.Slice(fileList, func(i, j int) bool {
+	// Stable, like the sender's sort: equal names (from several source
+	// arguments) stay in wire order, so that both sides number them alike.
+	sort.SliceStable(fileList, func(i, j int) bool {
 		return fileList[i].Name < fileList[j].Name
 	})
 }
